@@ -498,6 +498,17 @@ def _read_request(
                     f"Malformed shared-memory pointer in request batch custom_metadata: {exc}",
                     "",
                 ) from exc
+            except (pa.ArrowInvalid, OSError, StopIteration) as exc:
+                # The offset/length are client-supplied numbers: they may name
+                # bytes outside the segment or a region that holds no batch.
+                # The request's own IPC stream was valid and is fully drained,
+                # so this is a bad request, not a broken connection — letting
+                # ArrowInvalid / StopIteration out would end the serve loop.
+                raise RpcError(
+                    "ProtocolError",
+                    f"Shared-memory pointer in request batch custom_metadata names no readable batch: {exc!r}",
+                    "",
+                ) from exc
         if len(batch.schema) > 0 and batch.num_rows != 1:
             raise RpcError(
                 "ProtocolError",
